@@ -33,6 +33,11 @@ CONST_INT = 5
 CONST_STR = 'plain'
 CONST_REF = '$res{r.x}'
 CONST_LIST = [1, 2]
+CONST_ZERO = 0
+CONST_EMPTY = ()
+CONST_NONE = None
+CONST_BLANK = ''
+CONST_FALSE = False
 
 
 class Rec:
@@ -234,7 +239,9 @@ def run_case(case):
 
 ARGS = [1, 2.5, None, True, 'plain', '', '$', 'x${MOD.CONST_INT}', '${MOD.CONST_INT}', '${MOD.CONST_LIST}',
         '$res{r.x}', '$handle{r.x}', '$res{top}', '$handle{top}', [1, 'two', None], {'a': [1]}, 'res{r.x}',
-        '$ {MOD.CONST_INT}', '${MOD.CompB}', '$handle{r}']
+        '$ {MOD.CONST_INT}', '${MOD.CompB}', '$handle{r}',
+        # names of falsy objects are replaced by those objects all the same
+        '${MOD.CONST_ZERO}', '${MOD.CONST_EMPTY}', '${MOD.CONST_NONE}', '${MOD.CONST_BLANK}', '${MOD.CONST_FALSE}']
 
 
 def comp(t, args=None, kwargs=None):
